@@ -134,8 +134,14 @@ class Report:
                 continue
             if self.only and o.key != self.only:
                 continue
+            role = getattr(self, 'roles', {}).get(o.key)
+            by_role = next((k for k in known if k.get('status') == 'known' and k.get('token_role') and k['token_role'] == role
+                            and k['rule'] == o.key[0] and k['construct'] == o.key[1]), None)
             if o.key in known_keys:
                 matched.append((o, known_keys[o.key]))
+            elif by_role is not None:
+                # the same construct and the same role (e.g. the class's only metadata slot) under a renamed field
+                matched.append((o, by_role))
             else:
                 violations.append(o)
         # a floor miss alone means "the analysis cannot stand" (exit 2); next to a concrete violation it is
